@@ -473,24 +473,26 @@ func c19InitPath(c *Check, a *Anchors) {
 		fmt.Sprintf("the --init path is not derived from the positional arguments (from positional: %v, from the quoted post-`--` list: %v): `task --init dir/Taskfile.yml` writes somewhere else", fromPos, fromQuoted))
 	// extension-only keeps the directory
 	keepsDir := false
-	inspectBody(run.Body, func(nd ast.Node) bool {
-		ifs, ok := nd.(*ast.IfStmt)
-		if !ok {
-			return true
-		}
-		if call, ok := ast.Unparen(ifs.Cond).(*ast.CallExpr); ok {
-			if fn, ok := callee(info, call).(*types.Func); ok && fn.Name() == "IsExtOnly" {
-				s := ""
-				for _, st := range ifs.Body.List {
-					if as, ok := st.(*ast.AssignStmt); ok {
-						s += exprStr(as.Rhs[0])
-					}
-				}
-				keepsDir = strings.Contains(s, "filepath.Dir(") && strings.Contains(s, "filepath.Ext(")
+	for _, kg := range c.P.groupOf(run, 2) {
+		inspectBody(kg.Body, func(nd ast.Node) bool {
+			ifs, ok := nd.(*ast.IfStmt)
+			if !ok {
+				return true
 			}
-		}
-		return true
-	})
+			if call, ok := ast.Unparen(ifs.Cond).(*ast.CallExpr); ok {
+				if fn, ok := callee(info, call).(*types.Func); ok && fn.Name() == "IsExtOnly" {
+					s := ""
+					for _, st := range ifs.Body.List {
+						if as, ok := st.(*ast.AssignStmt); ok {
+							s += exprStr(as.Rhs[0])
+						}
+					}
+					keepsDir = strings.Contains(s, "filepath.Dir(") && strings.Contains(s, "filepath.Ext(")
+				}
+			}
+			return true
+		})
+	}
 	// the extension-only classifier must not take the directory itself ("." / "dir/.") for an extension
 	if ext := c.P.Func(PkgFilepathext, "", "IsExtOnly"); ext == nil {
 		c.Errorf("init-path: filepathext.IsExtOnly not found")
